@@ -79,6 +79,11 @@ def attribute(run, trace, idx):
         if failed or k == "EmitRaised":
             return "C16", ("a consumer of element %s raised: the emitter must get exactly that exception, once all awaitables of the emit "
                            "have finished (observed: %s)" % (ev.get("e"), k)), ["C03"]
+        later = any(x["ev"] == "ConsumerFail" and x.get("e") == ev.get("e") for x in trace[idx:])
+        if later:
+            # the emit was over before its consumer failed: that failure can no longer reach the emitter
+            return "C03", ("the emit of element %s completed while its consumer was still at work; the consumer then raised and "
+                           "nobody was left to receive the exception" % ev.get("e")), ["C16"]
         return "C03", "%s at a point the specification does not allow (emit must wait for all reachable consumers)" % k
     if k in ("LateDelivery", "ConsumerDone"):
         return "C02", "%s not allowed by the specification" % k
